@@ -115,7 +115,10 @@ def post(REC, fname, R, X, zero_budget, eff, classes=()):
     REC.check(P, fname, 'weight_multiset', bool(np.array_equal(O.multiset(R), O.multiset(X.astype(float)))), det(), classes)
     REC.check(P, fname, 'no_new_selfloop', bool(np.all(np.diag(X)[np.diag(R) == 0] == 0)), det(), classes)
     if fname in UND:
-        REC.check(P, fname, 'symmetric', bool(np.array_equal(X, X.T)), det(), classes)
+        if np.array_equal(R, R.T):
+            REC.check(P, fname, 'symmetric', bool(np.array_equal(X, X.T)), det(), classes)
+        else:   # input symmetric only up to rounding (accepted by the routine's own tolerance): the support must be
+            REC.check(P, fname, 'symmetric', bool(np.array_equal(X != 0, (X != 0).T)), det(), classes)
     else:
         REC.check(P, fname, 'out_strength', bool(np.allclose(X.sum(axis=1), R.sum(axis=1), rtol=1e-9, atol=1e-12)),
                   det(), classes)
